@@ -248,7 +248,7 @@ func parseAndOr(getSnippet func() (*snippet, error), remainingSnippets func() in
 			} else {
 				conditions = append(conditions, condition)
 			}
-			expectingMore = true
+			expectingMore = false
 		case ")":
 			if len(conditions) == 1 {
 				return conditions[0], nil
